@@ -486,7 +486,8 @@ where
     E: nom::error::ParseError<&'a [u8]>,
     F: Fn(&'a [u8]) -> nom::IResult<&'a [u8], T, E>,
 {
-    items.reserve_exact(num_items as usize);
+    // `num_items` is untrusted: reserve no more than the remaining input could hold
+    items.reserve_exact((num_items as usize).min(input.len() / std::mem::size_of::<T>().max(1)));
     for _ in 0..num_items {
         let (rest, data) = parser(input)?;
         items.push(data);
